@@ -941,3 +941,20 @@ func isPlainDecimalFloat(s string) bool { // -?[0-9]+(\.[0-9]+)?
 	}
 	return d > 0 && i == len(s)
 }
+
+// OnlyPostFailure reports whether the specification determines the execution of (root, mode, input) completely as:
+// exactly one issue, the one of a single failing PostTransform (or no issue at all). Such executions do not depend
+// on the visit order although they contain a failing PostTransform.
+func OnlyPostFailure(root *Node, mode string, input Val) bool {
+	root.Number()
+	_, typ := Build(root, &Env{Silent: true})
+	dest := reflect.New(typ)
+	var in any
+	if mode == "validate" {
+		SetFromVal(dest.Elem(), input)
+	} else {
+		in = input.Go()
+	}
+	spec := Spec(root, SpecCfg{Mode: mode}, in, dest.Elem())
+	return spec.Unknown == "" && (len(spec.Issues) == 0 || (spec.PostFailed && len(spec.Issues) == 1))
+}
